@@ -213,6 +213,32 @@ def units(w):
     U.append(node_unit("NodeDerefSlice", {"expression": lambda it: child("c"), "start": lambda it: child("a"), "end": lambda it: child("b")},
                        name="nodes.py::NodeDerefSlice.evaluate[all kinds, a to b]"))
     U.append(node_unit("NodeDerefAssign", {"expression": lambda it: child("c"), "index": lambda it: child("i"), "value": lambda it: child("v")}))
+    # the remaining iteration / literal / call forms
+    for cls_ in ("NodeSetComprehension", "NodeMapComprehension"):
+        for what in (None, "keys", "values", "entries"):
+            fs = {"valueExpr": body, "identifier": "x", "listExpr": lambda it: child("c"), "what": what, "conditionExpr": None}
+            if cls_ == "NodeMapComprehension":
+                fs["keyExpr"] = lambda it: child("k")
+            else:
+                fs["valueExpr"] = lambda it: child("v")
+            U.append(node_unit(cls_, fs, name=f"nodes.py::{cls_}.evaluate[all kinds,{what}]"))
+    for cls_ in ("NodeListComprehensionParallel", "NodeListComprehensionProduct", "NodeSetComprehensionParallel", "NodeSetComprehensionProduct"):
+        U.append(node_unit(cls_, {"valueExpr": body, "identifier1": "x", "listExpr1": lambda it: child("c"), "what1": None,
+                                  "identifier2": "y", "listExpr2": lambda it: child("d"), "what2": None, "conditionExpr": None}))
+    U.append(node_unit("NodeSet", {"items": lambda it: PList([child("e"), child("f")])}, name="nodes.py::NodeSet.evaluate[elements of all kinds]"))
+    U.append(node_unit("NodeSet", {"items": lambda it: PList([spread(it)])}, name="nodes.py::NodeSet.evaluate[spread of all kinds]"))
+    U.append(node_unit("NodeMap", {"keys": lambda it: PList([child("k")]), "values": lambda it: PList([child("v")])}, name="nodes.py::NodeMap.evaluate[key and value of all kinds]"))
+    U.append(node_unit("NodeObject", {"keys": lambda it: PList(["m"]), "values": lambda it: PList([child("v")])}, name="nodes.py::NodeObject.evaluate[member of all kinds]"))
+    U.append(node_unit("NodeDerefInvoke", {"objectExpr": lambda it: child("o"), "member": "m", "names": lambda it: PList([None]), "args": lambda it: PList([child("a")])},
+                       name="nodes.py::NodeDerefInvoke.evaluate[receiver and argument of all kinds]"))
+    U.append(node_unit("NodeFuncall", {"func": lambda it: child("f"), "names": lambda it: PList([None]), "args": lambda it: PList([child("a")])},
+                       name="nodes.py::NodeFuncall.evaluate[callee and argument of all kinds]"))
+    U.append(node_unit("NodeFuncall", {"func": lambda it: S.node("callee", F.func("callee", ["a", "rest..."], lambda it_, vs: V.NULL)),
+                                       "names": lambda it: PList([None]), "args": lambda it: PList([spread(it)])},
+                       name="nodes.py::NodeFuncall.evaluate[spread argument of all kinds]"))
+    U.append(node_unit("NodeAnd", {"expressions": lambda it: PList([child("a"), child("b")])}, name="nodes.py::NodeAnd.evaluate[operands of all kinds]"))
+    U.append(node_unit("NodeOr", {"expressions": lambda it: PList([child("a"), child("b")])}, name="nodes.py::NodeOr.evaluate[operands of all kinds]"))
+
     # range(): outside the kind enumeration above (its loops need contracts); the C19 units prove it for all int arguments
     # and steps with no exception allowed
     from . import c19
